@@ -192,7 +192,10 @@ pub fn barrier(v: &View, vd: &mut Verdict, prop: &str, awaiters: bool) {
                             format!("actor {a}: client {} op {} {:?} returned Ok at {end}, before stopped() finished at {stopped_exit}", o.client, o.op, o.what),
                         );
                     }
-                    if o.begin < v.alive_until(a).min(first_issued) && !okish && av.graceful {
+                    // `first_issued` and `alive_until` count this request too: "nothing else had asked" is `<=`
+                    // (consume / consume_sync with a value that may have been handed out before: C17's rule)
+                    let own = matches!(o.what, OpWhat::Halt | OpWhat::TryHalt) && o.end.is_some() && o.begin == v.alive_until(a).min(first_issued);
+                    if (o.begin < v.alive_until(a).min(first_issued) || own) && !okish && av.graceful {
                         vd.fail(
                             format!("{prop}/halt_failed/{:?}", o.what),
                             format!("actor {a}: client {} op {} {:?} began at {} while the actor was alive and nothing else had asked it to stop, but returned {:?}", o.client, o.op, o.what, o.begin, o.res),
